@@ -77,6 +77,7 @@ type interpreter struct {
 	hashStreams  map[*value]*[]value
 	hashCalls    []hashCall
 	shaCalls     []ufCall
+	randCounter  int
 	divHints     map[*Term]divHint
 	model        map[string]uint64
 	modelOK      bool
